@@ -367,3 +367,7 @@ package wire
 //@   ensures [C17,C18] len(gen.Content) == 0 ==> result == nil && FSWCOUNT[0] == old(FSWCOUNT[0]) && WRITEERR[0] == old(WRITEERR[0]) && FSWRITTEN[gen.OutputPath] == old(FSWRITTEN[gen.OutputPath]) && FSCONTENT[gen.OutputPath] == old(FSCONTENT[gen.OutputPath])
 //@   ensures [C17,C18] len(gen.Content) > 0 ==> FSWCOUNT[0] == old(FSWCOUNT[0]) + 1 && FSWRITTEN[gen.OutputPath] && FSCONTENT[gen.OutputPath] == gen.Content
 //@   ensures [C17] WRITEERR[0] == old(WRITEERR[0]) + (result != nil ? 1 : 0)
+
+//@ func Load
+//@   ensures result.0 != nil ==> result.0.Fset != nil || len(result.0.Sets) == 0
+
